@@ -438,6 +438,12 @@ func (d *deepView) storedInField(v dval) string {
 				if id := ir.FieldID(x.Addr); id != "" {
 					return id
 				}
+				// an element of a small array field (Device [1]byte)
+				if ia, ok := x.Addr.(*ssa.IndexAddr); ok {
+					if id := ir.FieldID(ia.X); id != "" {
+						return id
+					}
+				}
 			}
 		case *ssa.Convert:
 			if id := d.storedInField(dval{x, v.fr}); id != "" {
